@@ -665,6 +665,45 @@ def check_norm_and_ptn(ctx, rep):
              and isinstance(c.args[0].op, ast.Mult) and any(isinstance(y, ast.Name) and y.id == bl for y in ast.walk(c.args[0])) for c in ast.walk(ns))
     rep.check('C04.E', 'NonSymmetricSubstitutionModel.p_t::matrix_exp(Q*t)', ok, where(ctx.classes.get(f"{ABS}.NonSymmetricSubstitutionModel").module, ns), None,
               "non-reversible models must return matrix_exp(Q·t)")
+    # … one matrix per (branch, category) of every sample: Q [..., n, n] gets the two axes of the branch lengths [..., B, K] in FRONT of its matrix axes, t gets the two matrix
+    # axes behind: the numbers of inserted axes agree (2 and 2).  With fewer axes on Q its sample axis is aligned with the category / branch axis of t.
+    def inserted(e, behind):
+        k = 0
+        while True:
+            if isinstance(e, ast.Call) and isinstance(e.func, ast.Attribute) and e.func.attr == 'unsqueeze' and len(e.args) == 1:
+                if ast.unparse(e.args[0]) == ('-1' if behind else '-3'):
+                    k += 1
+                    e = e.func.value
+                    continue
+                return None, e
+            if isinstance(e, ast.Subscript) and isinstance(e.slice, ast.Tuple) and e.slice.elts and isinstance(e.slice.elts[0], ast.Constant) and e.slice.elts[0].value is Ellipsis:
+                rest = e.slice.elts[1:]
+                nones = [x for x in rest if isinstance(x, ast.Constant) and x.value is None]
+                fulls = [x for x in rest if isinstance(x, ast.Slice) and x.lower is None and x.upper is None]
+                if len(nones) + len(fulls) != len(rest) or (behind and fulls) or (not behind and len(fulls) != 2):
+                    return None, e
+                k += len(nones)
+                e = e.value
+                continue
+            return k, e
+    for c in ast.walk(ns):
+        if isinstance(c, ast.Call) and (dotted_name(c.func) or '').endswith('matrix_exp') and c.args and isinstance(c.args[0], ast.BinOp) and isinstance(c.args[0].op, ast.Mult):
+            sides = [c.args[0].left, c.args[0].right]
+            t_side = next((x for x in sides if any(isinstance(y, ast.Name) and y.id == bl for y in ast.walk(x))), None)
+            q_side = next((x for x in sides if x is not t_side), None)
+            if t_side is None or q_side is None:
+                continue
+            kt, _ = inserted(t_side, True)
+            kq, _ = inserted(q_side, False)
+            if kt is None or kq is None:
+                rep.undecided('C04.E', 'NonSymmetricSubstitutionModel.p_t::one-matrix-per-branch-and-category', where(ctx.classes.get(f"{ABS}.NonSymmetricSubstitutionModel").module, c),
+                              'the axes inserted on Q and on the branch lengths are not written as unsqueeze(-3) / unsqueeze(-1) / [..., None, None]')
+            else:
+                rep.check('C04.E', 'NonSymmetricSubstitutionModel.p_t::one-matrix-per-branch-and-category', kt == 2 and kq == 2, where(ctx.classes.get(f"{ABS}.NonSymmetricSubstitutionModel").module, c),
+                          {'axes_inserted_in_front_of_the_matrix_axes_of_Q': kq, 'axes_appended_to_the_branch_lengths': kt},
+                          f"matrix_exp receives Q with {kq} axes inserted in front of its matrix axes and branch lengths with {kt} axes appended: the product needs 2 and 2 "
+                          f"([..., 1, 1, n, n] · [..., B, K, 1, 1]); otherwise the sample axis of a batched rate matrix is aligned with the category axis of the branch lengths and "
+                          f"P(t) of one sample is computed from the rate matrix of another")
 
 
 def flatten_matmul(e) -> List[ast.AST]:
